@@ -527,6 +527,13 @@ func c08Root(w *W, st ref.Stamp, full bool) {
 	wrap("Lunar", func() {
 		cw.reset()
 		l := solarOf(st).GetLunar()
+		// internal state exposed by accessors is snapshotted before anything else is called on the object
+		snap := render(reflect.ValueOf(l.GetJieQiTable()), 0, nil) + render(reflect.ValueOf(l.GetJieQiList()), 0, nil)
+		defer func() {
+			if now := render(reflect.ValueOf(l.GetJieQiTable()), 0, nil) + render(reflect.ValueOf(l.GetJieQiList()), 0, nil); now != snap {
+				w.Violate("stable", "Lunar-table/"+key, fmt.Sprintf("the term table / list exposed by the Lunar at %s changed while its read-only accessors were being called: %s", key, diffDigests(snap, now)), map[string]string{"root": key})
+			}
+		}()
 		before := digest1(l)
 		cw.walk(reflect.ValueOf(l), 2)
 		// read-only accessors must leave the object as it was: the same accessors give the same values after the full walk
